@@ -81,6 +81,7 @@ package geojson
 //@   requires keys != nil && opts != nil
 //@   ensures Shape: result2 != nil ==> result1 == nil
 //@   ensures Fresh: result1 != nil ==> !old($alloc)[result1]
+//@   ensures C07Array: result2 == nil ==> ite(rcoords.Exists(), rcoords, keys.rCoordinates).IsArray()   // a position (or the coordinates member) that is not a JSON array is rejected
 //@   ensures C07Dims: (result2 == nil && result1 != nil) ==> ((result1.dims == 1 || result1.dims == 2) && len(result1.values) == result1.dims && len(result1.members) == 0)   // a position keeps at most two extra ordinates (2..4 numbers)
 //@   call 0 iterinv 0 <= count && count <= 4
 //@   call 0 iterstop 0 <= count && count <= 4
@@ -189,6 +190,7 @@ package geojson
 //@   entry use rootGlobalsInit()
 //@   requires keys != nil && opts != nil
 //@   ensures Shape: okShape(result0, result1)
+//@   ensures C07Member: result1 == nil ==> (keys.rGeometry.Exists())   // a missing required member, or one that is not an array, is rejected
 //@   ensures C07Kind: result1 == nil ==> (isFeatureK(result0) || isCircleK(result0))
 //@   ensures Kind: result0 != nil ==> rvOpen(result0)
 // RequireValid for this parser is NOT under contract: it needs a two-state frame argument (the validity of the
@@ -201,6 +203,7 @@ package geojson
 //@   entry use rootGlobalsInit()
 //@   requires keys != nil && opts != nil
 //@   ensures Shape: okShape(result0, result1)
+//@   ensures C07Member: result1 == nil ==> (keys.rCoordinates.Exists() && keys.rCoordinates.IsArray())   // a missing required member, or one that is not an array, is rejected
 //@   ensures C07Kind: result1 == nil ==> (isMultiPointK(result0))
 //@   ensures Kind: result0 != nil ==> dyn(result0) == typeid(*MultiPoint)
 //@   ensures RequireValid: result1 == nil && opts.RequireValid ==> oValidS(result0)
@@ -221,6 +224,7 @@ package geojson
 //@   entry use rootGlobalsInit()
 //@   requires keys != nil && opts != nil
 //@   ensures Shape: okShape(result0, result1)
+//@   ensures C07Member: result1 == nil ==> (keys.rCoordinates.Exists() && keys.rCoordinates.IsArray())   // a missing required member, or one that is not an array, is rejected
 //@   ensures C07Kind: result1 == nil ==> (isMultiLineStringK(result0))
 //@   ensures C07Lines: result1 == nil ==> (forall j int :: (0 <= j && j < collN(collOf(result0))) ==> lineLenOK(collChild(collOf(result0), j)))   // every member line has at least two positions
 //@   ensures RequireValid: result1 == nil && opts.RequireValid ==> oValidS(result0)
@@ -239,6 +243,7 @@ package geojson
 //@   entry use rootGlobalsInit()
 //@   requires keys != nil && opts != nil
 //@   ensures Shape: okShape(result0, result1)
+//@   ensures C07Member: result1 == nil ==> (keys.rCoordinates.Exists() && keys.rCoordinates.IsArray())   // a missing required member, or one that is not an array, is rejected
 //@   ensures C07Kind: result1 == nil ==> (isMultiPolygonK(result0))
 //@   ensures C07Rings: result1 == nil ==> (forall j int :: (0 <= j && j < collN(collOf(result0))) ==> polyRingsOK(collChild(collOf(result0), j)))   // every member polygon: exterior present, rings of >= 4 positions, closed
 //@   ensures RequireValid: result1 == nil && opts.RequireValid ==> oValidS(result0)
@@ -267,6 +272,7 @@ package geojson
 //@   entry use rootGlobalsInit()
 //@   requires keys != nil && opts != nil
 //@   ensures Shape: okShape(result0, result1)
+//@   ensures C07Member: result1 == nil ==> (keys.rGeometries.Exists() && keys.rGeometries.IsArray())   // a missing required member, or one that is not an array, is rejected
 //@   ensures C07Kind: result1 == nil ==> (isGeometryCollectionK(result0))
 //@   ensures Kind: result0 != nil ==> rvOpen(result0)
 // RequireValid for this parser is NOT under contract: it needs a two-state frame argument (the validity of the
@@ -282,6 +288,7 @@ package geojson
 //@   entry use rootGlobalsInit()
 //@   requires keys != nil && opts != nil
 //@   ensures Shape: okShape(result0, result1)
+//@   ensures C07Member: result1 == nil ==> (keys.rFeatures.Exists() && keys.rFeatures.IsArray())   // a missing required member, or one that is not an array, is rejected
 //@   ensures C07Kind: result1 == nil ==> (isFeatureCollectionK(result0))
 //@   ensures Kind: result0 != nil ==> rvOpen(result0)
 // RequireValid for this parser is NOT under contract: it needs a two-state frame argument (the validity of the
